@@ -1,4 +1,5 @@
 import Driver.Pure
+import Driver.Store
 open Driver
 
 /-
@@ -8,5 +9,6 @@ open Driver
 def main (args : List String) : IO UInt32 := do
   match args with
   | [] | ["pure"] => runLoop (fun (_ : Unit) toks => ((), (pureHandler toks).getD "bad-op")) ()
+  | ["store"] => runLoop Driver.StoreMode.step Driver.StoreMode.init
   | _ => IO.eprintln s!"unknown mode {args}"; return 2
   return 0
